@@ -34,15 +34,16 @@ PARTIAL = ('PROVED for every N and every data set (plain or uncertain x): the un
            '+,-,*,/ trees whose value functions of all data are the closed-form (weighted) least-squares estimators, the unique solution '
            'of the normal equations; hence (C02 chain rule) sensitivity / u_component of a and b are the partial derivatives of the '
            'estimator w.r.t. every elementary input and (C04) covariance is the LPU double sum; x_from_y / y_from_x / merge trees: value '
-           'functions; the label step is core.result iff `result` is bound in type_b.py (it is not on the pinned tree: NameError). '
+           'functions; the label step is core.result (same value and components; `result` is bound in type_b.py). '
            'The WLS theorem assumes plain u_y of the right length and non-zero variances. '
-           'NOT PROVED (WTLS, C14_wtls_*_partial): only the hand-transcribed formulas of g_k (eqn 53) and g_ka (eqn 54) are compared '
-           '(g_ka is the derivative of the correct residual variance, the source g_k counts the covariance twice: refuted for correlated pairs, '
-           'known finding C14-wtls-cov); there is no theorem about the generated ChiSq / dChiSq_dalpha trees (envelope argument, '
-           'implicit-function step, back-substitution a = p_hat/cos(alpha), b = tan(alpha), limit u(x) -> 0): x**2 on a negative base is '
-           'outside ChainRule.regular; the minimiser _dbrent is an oracle (alpha1 recorded), its convergence / stationarity is not proved. '
-           'WTLS is tied by bit-exact correspondence given alpha1 (quick tier N <= 5, thorough N <= 10) and by the thorough-tier numerical oracle; '
-           'formula-level mutants of the WTLS code that only matter for correlated pairs are not caught.')
+           'WTLS, PROVED for every N (correlated pairs included): the generated ChiSq.__call__ denotes the profile chi-squared of Krystek & Anton '
+           'and the generated dChiSq_dalpha.__call__ is its derivative w.r.t. alpha (envelope argument), reading x**2 as x*x. '
+           'NOT PROVED (WTLS): the adequacy of that reading for the kernel evaluator on a negative base (ChainRule.regular excludes it; tied by '
+           'bit-exact correspondence), the constructors ChiSq/dChiSq_dalpha.__init__ (weights from the data or from u_x, u_y, r_xy), the '
+           'implicit-function step and the back-substitution a = p_hat/cos(alpha), b = tan(alpha) of the hand-modelled driver, the limit '
+           'u(x) -> 0; the minimiser _dbrent is an oracle (alpha1 recorded), its convergence / stationarity is not proved. These parts are tied by '
+           'bit-exact correspondence given alpha1 (quick tier N <= 5, thorough N <= 10) and by the numerical oracle (independent chi-squared '
+           'minimisation + numerical differentiation, incl. correlated pairs, explicit weights, intermediate-result data, near-vertical lines).')
 ASSUMPTIONS = ['rounding error of float arithmetic is not bounded by proof (theorems are over the reals)',
                'the builtin sum() is the one of CPython 3.12 (Neumaier compensation over float items); Python ints among the data are '
                'represented by the equal floats (exact below 2^53)',
@@ -66,13 +67,19 @@ def gen_case(rng, ctx_id, kind, malformed=False, big=False, force=None):
     xv = sorted(rng.sample(range(0, 40), n)) if xkind == 'int' else \
          [round(i * rng.uniform(0.8, 1.2) + rng.uniform(0, 0.3), 3) for i in range(1, n + 1)]
     yv = [a0 + b0 * x + rng.gauss(0, 0.2) for x in xv]
+    if force == 'steep':
+        # a near-vertical line; the initial estimate given below has the opposite slope sign, so the
+        # minimiser converges to an angle beyond +-pi/2 (cos(alpha) < 0)
+        n = 4; a0 = rng.uniform(30, 50); b0 = -rng.uniform(30, 45)
+        yv = [0.0, 3.0, 6.0, 10.0]; xv = [round((y - a0) / b0 + rng.gauss(0, 0.003), 4) for y in yv]
     mal = rng.choice(['len', 'plain_y', 'const_y', 'same_x', 'zero_uy', 'plain_x', 'ux_only', 'uxlen']) if malformed else None
     s.mal = mal
     last = lambda: ('ref', len(s.slots) - 1)
     # ---- y data
     ystruct = rng.choice(['indep', 'indep', 'dep', 'sys', 'ens'])
     if kind == 'wtls' and rng.random() < 0.5: ystruct = 'pairs'
-    if force: ystruct = 'sys'
+    if force == 'sysres': ystruct = 'sys'
+    if force in ('explicit', 'steep'): ystruct = rng.choice(['indep', 'pairs'])
     s.ystruct = ystruct
     ys = []; data = []      # data: slots of elementary inputs to differentiate against
     def u_of(): return round(rng.uniform(0.05, 0.6), 3)
@@ -108,11 +115,12 @@ def gen_case(rng, ctx_id, kind, malformed=False, big=False, force=None):
                     s.bin('mul', t, rel); t = last()
                 ys2.append(t)
             ys = ys2
-            if force or rng.random() < 0.5:
+            if force == 'sysres' or rng.random() < 0.5:
                 # declared intermediate results among the data (non-empty _i_components)
                 ys3 = []
                 for t in ys:
                     s.result(t[1], label=rng.choice([None, rng.randint(10, 19)])); ys3.append(last())
+                    data.append(last()[1])      # sensitivities w.r.t. the intermediate results are queried too
                 ys = ys3
     # ---- x data
     if xkind == 'ureal':
@@ -142,13 +150,16 @@ def gen_case(rng, ctx_id, kind, malformed=False, big=False, force=None):
             if mal == 'zero_uy': u_y[rng.randrange(len(u_y))] = 0.0
         r = s.fit_wls(xs, ys, u_y)
     else:
-        if rng.random() < 0.35 or mal in ('ux_only', 'uxlen'):
+        if rng.random() < 0.35 or mal in ('ux_only', 'uxlen') or force == 'explicit':
+            # both weights given, different from each other and from the data's own uncertainties
             u_x = [round(rng.uniform(0.02, 0.3), 3) for _ in xs]
             u_y = [round(rng.uniform(0.05, 0.5), 3) for _ in ys]
+            if force == 'steep': u_x = [0.01] * len(xs); u_y = [0.1] * len(ys)
             if rng.random() < 0.5: r_xy = [round(rng.uniform(-0.7, 0.7), 2) for _ in xs]
             if mal == 'ux_only': u_y = None
             if mal == 'uxlen': u_x = u_x[:-1]
         if rng.random() < 0.3: a_b = (round(a0 + rng.uniform(-.2, .2), 3), round(b0 * rng.uniform(0.9, 1.1), 3))
+        if force == 'steep': a_b = (0.0, round(rng.uniform(3, 6), 2))
         r = s.fit_wtls(xs, ys, u_x, u_y, r_xy, a_b)
         if r is None:
             tbk = traceback.extract_tb(s.last_exn.__traceback__)
@@ -180,8 +191,12 @@ def gen_case(rng, ctx_id, kind, malformed=False, big=False, force=None):
                 s.sens(iy, rng.choice(data)); s.read('u', iy)
                 if xa[0] == 'ref': s.sens(iy, xa[1])
             # the label step
-            if rng.random() < 0.5: s.x_from_y(fit, ia, ib, yseq, label=rng.randint(0, 9))
-            else: s.y_from_x(fit, ia, ib, xa, label=rng.randint(0, 9))
+            if rng.random() < 0.5: il = s.x_from_y(fit, ia, ib, yseq, label=rng.randint(0, 9))
+            else: il = s.y_from_x(fit, ia, ib, xa, label=rng.randint(0, 9))
+            if il is not None:
+                # labels only label: the labelled result is an intermediate with the same value and components
+                s.read('x', il); s.read('u', il); s.sens(il, rng.choice(data)); s.sens(il, y1[1])
+                s.bin('mul', ('ref', il), ('num', 2.0)); s.sens(len(s.slots) - 1, il)
         # merge with a second analysis of the same data (same value, own components)
         if rng.random() < 0.6 and kind != 'wtls':
             r2 = s.fit(xs, ys) if kind == 'ols' else s.fit_wls(xs, ys, u_y)
@@ -204,8 +219,13 @@ def correspondence(rng, tier):
     while len(sessions) < n and i < 3 * n:
         # quick: 18 OLS, 18 WLS, 8 WTLS (N <= 5); thorough: one third each, WTLS with N up to 10
         kind = KINDS[i % 3] if tier != 'quick' else ('wtls' if i % 11 in (2, 7) else ('ols', 'wls')[i % 2])
-        # every run has fits (one of each kind at least) whose data are declared intermediate results
-        s = gen_case(rng, 1 + i, kind, malformed=(i % 7 == 6), big=(tier != 'quick'), force=(i in (2, 3, 4) or i % 23 == 9))
+        # every run has fits (one of each kind at least) whose data are declared intermediate results, a WTLS fit
+        # with both weights given explicitly, and a near-vertical WTLS fit converging beyond +-pi/2
+        force = 'sysres' if (i in (2, 3, 4) or i % 23 == 9) else None
+        if kind == 'wtls' and force is None:
+            nw = sum(1 for t in sessions if t.kind == 'wtls')
+            force = {1: 'explicit', 2: 'steep'}.get(nw % 6)
+        s = gen_case(rng, 1 + i, kind, malformed=(i % 7 == 6 and force is None), big=(tier != 'quick'), force=force)
         i += 1
         if s.skip: skipped += 1; continue
         sessions.append(s)
@@ -356,51 +376,80 @@ def wtls_solve(xv, yv, u2x, u2y, cov, alpha_start):
     c2, p = f(al)
     return p / math.cos(al), math.tan(al), al
 
-def check_wtls(xv, yv, ux, uy, rxy, explicit=False):
-    """line_fit_wtls with independent or pairwise-correlated data against numerical differentiation of an
-    independent solver.  Conservative: only reports differences far above the numerical noise."""
+def check_wtls(xv, yv, ux, uy, rxy, explicit=False, interm=False, a_b=None, wx=None, wy=None):
+    """line_fit_wtls against an independent minimisation of the stated chi-squared and numerical differentiation of
+    that estimator w.r.t. every datum.  Modes: correlations declared on the data / weights given as arguments
+    (explicit: u_x = wx, u_y = wy, r_xy, different from the data's own uncertainties) / y data that are declared
+    intermediate results sharing a systematic error (interm) / a given initial estimate a_b (near-vertical lines).
+    Conservative: only reports differences far above the numerical noise."""
     from GTC import core, reporting, type_b
     new_context(9)
     n = len(xv)
     xs = [core.ureal(x, u, independent=False) for x, u in zip(xv, ux)]
     ys = [core.ureal(y, u, independent=False) for y, u in zip(yv, uy)]
-    if not explicit:
+    base = {'kind': 'wtls', 'x': xv, 'y': yv, 'u_x': ux, 'u_y': uy, 'r_xy': rxy, 'explicit': explicit, 'interm': interm,
+            'a_b': a_b, 'wx': wx, 'wy': wy}
+    ydat = ys; e_sys = None
+    if interm:
+        e_sys = core.ureal(0.0, 0.07)
+        ydat = [core.result(y + e_sys, label='y%d' % i) for i, y in enumerate(ys)]
+    elif not explicit:
         for x, y, r in zip(xs, ys, rxy):
             if r != 0: core.set_correlation(r, x, y)
-    base = {'kind': 'wtls', 'x': xv, 'y': yv, 'u_x': ux, 'u_y': uy, 'r_xy': rxy, 'explicit': explicit}
     try:
-        # explicit: the weights are given as arguments (u_x, u_y, r_xy) instead of being read from the data
-        fit = type_b.line_fit_wtls(xs, ys, u_x=list(ux), u_y=list(uy), r_xy=list(rxy)) if explicit else type_b.line_fit_wtls(xs, ys)
+        if explicit: fit = type_b.line_fit_wtls(xs, ydat, u_x=list(wx), u_y=list(wy), r_xy=list(rxy), a_b=a_b)
+        else: fit = type_b.line_fit_wtls(xs, ydat, a_b=a_b)
     except Exception as ex:
         return None          # the minimiser is allowed to fail (oracle)
     A, B = fit.a_b
-    u2x = [u * u for u in ux]; u2y = [u * u for u in uy]; cov = [a_ * b_ * r for a_, b_, r in zip(ux, uy, rxy)]
+    if explicit: sx, sy, rr = wx, wy, rxy
+    elif interm: sx, sy, rr = ux, [math.sqrt(u * u + 0.07 * 0.07) for u in uy], [0] * n
+    else: sx, sy, rr = ux, uy, rxy
+    u2x = [u * u for u in sx]; u2y = [u * u for u in sy]; cov = [a_ * b_ * r for a_, b_, r in zip(sx, sy, rr)]
     sol = wtls_solve(xv, yv, u2x, u2y, cov, math.atan(B.x))
     if sol is None: return None
     a, b, al = sol
     tol = 2e-5
     if abs(A.x - a) > tol * max(1, abs(a)) or abs(B.x - b) > tol * max(1, abs(b)):
         return dict(base, what='values', got=[A.x, B.x], want=[a, b])
+    def chi2ab(a_, b_):
+        return sum((y - a_ - b_ * x) ** 2 / (vy + b_ * b_ * vx - 2 * b_ * c) for x, y, vx, vy, c in zip(xv, yv, u2x, u2y, cov))
+    c0 = chi2ab(A.x, B.x)
+    if abs(c0 - fit.ssr) > 1e-6 * max(1.0, abs(fit.ssr)):
+        return dict(base, what='ssr is not chi-squared at the returned (a, b)', got=fit.ssr, want=c0)
     def solve_at(xv2, yv2):
-        r = wtls_solve(xv2, yv2, u2x, u2y, cov, al)
-        return r
+        return wtls_solve(xv2, yv2, u2x, u2y, cov, al)
+    sa_sum = sb_sum = 0.0; ok_sum = True
     for i in range(n):
-        for which, objs in (('y', ys), ('x', xs)):
-            h = 1e-3
+        for which, objs in (('y', ydat), ('x', xs)):
+            h = 1e-3 * max(1.0, abs(1.0 / b)) if which == 'x' else 1e-3
+            h = min(h, 1e-3)
             def pert(d):
                 xv2, yv2 = list(xv), list(yv)
                 if which == 'y': yv2[i] += d
                 else: xv2[i] += d
                 return solve_at(xv2, yv2)
             r1, r2, r3, r4 = pert(h), pert(-h), pert(h / 2), pert(-h / 2)
-            if None in (r1, r2, r3, r4): continue
+            if None in (r1, r2, r3, r4): ok_sum = False; continue
             for j, (est, name) in enumerate(((A, 'a'), (B, 'b'))):
                 d1 = (r1[j] - r2[j]) / (2 * h); d2 = (r3[j] - r4[j]) / h
                 d = (4 * d2 - d1) / 3; err = abs(d2 - d1)
                 got = reporting.sensitivity(est, objs[i])
-                if err > 1e-4 * max(1, abs(d)): continue
+                if which == 'y':
+                    if j == 0: sa_sum += d
+                    else: sb_sum += d
+                if err > 1e-4 * max(1, abs(d)): ok_sum = False; continue
                 if abs(got - d) > 1e-3 * max(1.0, abs(d)) + 10 * err:
                     return dict(base, what='sensitivity of %s to %s[%d]' % (name, which, i), got=got, want=d)
+                if interm and which == 'y':
+                    got0 = reporting.sensitivity(est, ys[i])      # the elementary reading behind the intermediate result
+                    if abs(got0 - d) > 1e-3 * max(1.0, abs(d)) + 10 * err:
+                        return dict(base, what='sensitivity of %s to the elementary y0[%d]' % (name, i), got=got0, want=d)
+    if interm and ok_sum:
+        for est, want, name in ((A, sa_sum, 'a'), (B, sb_sum, 'b')):
+            got = reporting.sensitivity(est, e_sys)
+            if abs(got - want) > 2e-3 * max(1.0, abs(want)):
+                return dict(base, what='sensitivity of %s to the shared systematic error' % name, got=got, want=want)
     return None
 
 def rand_dataset(rng):
@@ -412,18 +461,54 @@ def rand_dataset(rng):
     ux = [round(rng.uniform(0.02, 0.2), 3) for _ in xv]
     return xv, yv, ux, uy
 
+def steep_dataset(rng):
+    a0 = rng.uniform(30, 50); b0 = -rng.uniform(30, 45)
+    yv = [0.0, 2.0, 4.0, 6.0, 8.0, 10.0][:rng.randint(4, 6)]
+    xv = [round((y - a0) / b0 + rng.gauss(0, 0.003), 4) for y in yv]
+    return xv, yv, [0.01] * len(xv), [0.1] * len(xv)
+
+def check_labels(xv, yv, uy):
+    """labels only label: x_from_y / y_from_x with a label give the same value and sensitivities, and the label"""
+    from GTC import core, reporting, type_b
+    new_context(9)
+    ys = [core.ureal(y, u) for y, u in zip(yv, uy)]
+    base = {'kind': 'labels', 'x': xv, 'y': yv, 'u_y': uy}
+    for fit in (type_b.line_fit(xv, ys), type_b.line_fit_wls(xv, ys)):
+        y0 = core.ureal(yv[0] + 0.25, 0.2); xq = core.ureal(xv[-1] / 2 + 0.1, 0.1)
+        for plain, lab, arg in ((lambda: fit.x_from_y([y0]), lambda: fit.x_from_y([y0], x_label='xl'), y0),
+                                (lambda: fit.y_from_x(xq), lambda: fit.y_from_x(xq, y_label='yl'), xq)):
+            p = plain()
+            try:
+                l = lab()
+            except Exception as ex:
+                return dict(base, what='label', detail='labelled call raised %s' % type(ex).__name__)
+            if l.x != p.x or l.u != p.u or l.label not in ('xl', 'yl') or \
+               reporting.sensitivity(l, arg) != reporting.sensitivity(p, arg) or \
+               reporting.sensitivity(l, ys[0]) != reporting.sensitivity(p, ys[0]):
+                return dict(base, what='label', detail='labelled result differs from the unlabelled one')
+    return None
+
 def search(rng, tier, broken):
     n = 150 if tier == 'quick' else 1500
     tried = 0
     for i in range(n):
         xv, yv, ux, uy = rand_dataset(rng)
         kind = ['ols', 'wls', 'wtls'][i % 3]
+        if kind == 'wtls' and tier == 'quick' and i > 90 and i % 9 != 2: continue
         tried += 1
         try:
             if kind == 'wtls':
-                if i % 9 != 2 and tier == 'quick' and i > 60: continue
+                mode = (i // 3) % 5
                 rxy = [round(rng.uniform(-0.6, 0.6), 2) if rng.random() < 0.4 else 0 for _ in xv]
-                r = check_wtls(xv, yv, ux, uy, rxy, explicit=(i % 2 == 0))
+                if mode == 0: r = check_wtls(xv, yv, ux, uy, rxy)                      # correlations declared on the data
+                elif mode == 1:                                                         # weights as arguments, all different
+                    wx = [round(rng.uniform(0.02, 0.2), 3) for _ in xv]; wy = [round(rng.uniform(0.2, 0.6), 3) for _ in xv]
+                    r = check_wtls(xv, yv, ux, uy, rxy, explicit=True, wx=wx, wy=wy)
+                elif mode == 2: r = check_wtls(xv, yv, ux, uy, [0] * len(xv), interm=True)   # intermediate-result data
+                elif mode == 3:                                                         # near-vertical, start with the wrong slope sign
+                    xv, yv, ux, uy = steep_dataset(rng)
+                    r = check_wtls(xv, yv, ux, uy, [0] * len(xv), a_b=(0.0, round(rng.uniform(3, 6), 2)))
+                else: r = check_labels(xv, yv, uy)
             else:
                 x_unc = rng.random() < 0.4
                 u_y_arg = [round(rng.uniform(0.05, 0.5), 3) for _ in xv] if (kind == 'wls' and rng.random() < 0.3) else None
@@ -432,19 +517,20 @@ def search(rng, tier, broken):
             r = None
         if r is not None and not is_known(r):
             return {'tried': tried, 'failing': r}
-    # the label step of the prediction methods (a known finding while it raises)
     return {'tried': tried, 'failing': None}
 
 def is_known(f):
-    # C14-wtls-cov: any WTLS input with a correlated (x_k, y_k) pair
-    if f.get('kind') == 'wtls' and any(r != 0 for r in f.get('r_xy', [])): return True
-    return f.get('what') in ('label', 'wtls_predict')
+    # C14-wtls-predict is about a missing method, not about an input of the oracle
+    return f.get('what') == 'wtls_predict'
 
 def replay(payload):
     f = payload.get('failing_input')
     print(json.dumps(payload.get('broken'), indent=1)[:3000])
     if f:
-        if f['kind'] == 'wtls': r = check_wtls(f['x'], f['y'], f['u_x'], f['u_y'], f['r_xy'], f.get('explicit', False))
+        if f['kind'] == 'wtls':
+            r = check_wtls(f['x'], f['y'], f['u_x'], f['u_y'], f['r_xy'], f.get('explicit', False), f.get('interm', False),
+                           tuple(f['a_b']) if f.get('a_b') else None, f.get('wx'), f.get('wy'))
+        elif f['kind'] == 'labels': r = check_labels(f['x'], f['y'], f['u_y'])
         else: r = check_linear(f['kind'], f['x'], f['y'], f['u_y'], f['x_uncertain'], f['u_x'], f['u_y_arg'])
         print('replayed failing input on the implementation:', 'STILL FAILS %r' % (r,) if r else 'passes now')
         return 1 if r else 0
